@@ -674,6 +674,8 @@ func runC05(r *Run, rng *rand.Rand, thorough bool) {
 			// a value that must be equal across several senders, or a duplicate between two other parties
 			unattributable := map[string]bool{
 				"ecdsa-resharing/DGRound1Message.ssid": true, "eddsa-resharing/DGRound1Message.ssid": true,
+				"ecdsa-resharing/DGRound1Message.ecdsa_pub_x": true, "ecdsa-resharing/DGRound1Message.ecdsa_pub_y": true,
+				"eddsa-resharing/DGRound1Message.eddsa_pub_x": true, "eddsa-resharing/DGRound1Message.eddsa_pub_y": true,
 				"ecdsa-keygen/KGRound1Message.h1": true, "ecdsa-keygen/KGRound1Message.h2": true,
 				"ecdsa-resharing/DGRound2Message1.h1": true, "ecdsa-resharing/DGRound2Message1.h2": true,
 				"ecdsa-resharing/DGRound2Message1.": true, "ecdsa-keygen/KGRound1Message.": true,
